@@ -57,12 +57,20 @@ def safe_execute(mod, case):
     containment, anything else is a harness error."""
     import traceback
     lvl = case.get("_log_level") if isinstance(case, dict) else None
+    werr = case.get("_warnings") == "error" if isinstance(case, dict) else False
     if lvl is not None:
         common.library_log_level(lvl)
+    import warnings
+    saved_filters = warnings.filters[:]
+    if werr:
+        # configuration knob: the process treats warnings as errors (-W error)
+        warnings.simplefilter("error")
     try:
         try:
             return mod.execute(case)
         finally:
+            if werr:
+                warnings.filters[:] = saved_filters
             if lvl is not None:
                 common.library_log_level(50)
     except Exception as e:
@@ -101,9 +109,17 @@ class _RunOne:
             # configuration swarm: the library's loggers at DEBUG in 10 % of the runs
             case["_log_level"] = 10
             agg.count("fault:log_level_DEBUG(runs)")
+        if isinstance(case, dict) and seed % 20 == 7 and not case.get("skip"):
+            # ... and warnings treated as errors in 5 %
+            case["_warnings"] = "error"
+            agg.count("fault:warnings_as_errors(runs)")
         res = safe_execute(mod, case)
         if res.get("fail_case") is not None:
+            knobs = {k: v for k, v in case.items() if k.startswith("_")} \
+                if isinstance(case, dict) else {}
             case = res["fail_case"]
+            if isinstance(case, dict):
+                case.update(knobs)        # (the process configuration the failure was seen under)
         agg.evaluations += res.get("evaluations", 1)
         for k, v in res.get("counters", {}).items():
             agg.count(k, v)
